@@ -231,35 +231,43 @@ theorem pyRepr_chars (np : Char → Bool) (s : Text) : ∀ ch ∈ pyRepr np s, i
 theorem reprChar_ascii (q c : Char) (hq : isAsciiChar q = true) :
     ∀ ch ∈ reprChar (fun _ => true) q c, isAsciiChar ch = true := by
   intro ch hm
-  rcases reprChar_chars _ q c ch hm with h | rfl
-  · exact h
-  · -- `ch` itself is emitted only when it is ASCII (or the quote / backslash)
-    unfold reprChar at hm
-    by_cases h1 : ch = q ∨ ch = '\\'
-    · rcases h1 with rfl | rfl
-      · exact hq
-      · decide
-    · by_cases h127 : ch.toNat < 127
-      · simp [isAsciiChar]; omega
-      · exfalso
-        simp only [h1, if_false] at hm
-        repeat' split at hm
-        all_goals first
-          | (rename_i hlt; omega)
-          | (rename_i hlt _; omega)
-          | skip
-        all_goals
-          have hx : ∀ w (pre : Char), ch ∈ '\\' :: pre :: hexN w ch.toNat → isAsciiChar ch = true := by
-            intro w pre h
-            simp only [List.mem_cons] at h
-            rcases h with rfl | rfl | h
-            · decide
-            · first | decide | (exfalso; revert h127; decide)
-            · exact hexN_ascii _ _ _ h
-          first
-            | (have := hx _ _ hm; simp [isAsciiChar] at this; omega)
-            | (simp at hm; rcases hm with rfl | rfl <;> revert h127 <;> decide)
-            | (simp at hm)
+  unfold reprChar at hm
+  have hex : ∀ w (pre : Char), isAsciiChar pre = true → ch ∈ '\\' :: pre :: hexN w c.toNat → isAsciiChar ch = true := by
+    intro w pre hp h
+    simp only [List.mem_cons] at h
+    rcases h with rfl | rfl | h
+    · decide
+    · exact hp
+    · exact hexN_ascii _ _ _ h
+  have two : ∀ a b : Char, isAsciiChar a = true → isAsciiChar b = true → ch ∈ [a, b] → isAsciiChar ch = true := by
+    intro a b ha hb h
+    simp only [List.mem_cons, List.not_mem_nil, or_false] at h
+    rcases h with rfl | rfl <;> assumption
+  split at hm
+  · rename_i hc
+    refine two _ _ (by decide) ?_ hm
+    rcases hc with rfl | rfl
+    · exact hq
+    · decide
+  · split at hm
+    · exact two _ _ (by decide) (by decide) hm
+    · split at hm
+      · exact two _ _ (by decide) (by decide) hm
+      · split at hm
+        · exact two _ _ (by decide) (by decide) hm
+        · split at hm
+          · exact hex _ _ (by decide) hm
+          · split at hm
+            · rename_i hlt
+              simp only [List.mem_singleton] at hm
+              subst hm
+              simp [isAsciiChar]; omega
+            · simp only [if_true] at hm
+              split at hm
+              · exact hex _ _ (by decide) hm
+              · split at hm
+                · exact hex _ _ (by decide) hm
+                · exact hex _ _ (by decide) hm
 
 theorem pyAscii_chars (s : Text) : ∀ ch ∈ pyAscii s, isAsciiChar ch = true := by
   intro ch hm
